@@ -212,6 +212,39 @@ fn run_case(v: &Value) -> String {
                 }
             }
         }
+        "dec" if v["cuts"].is_array() => {
+            // one LZMA2 stream, one of its LZMA chunks cut to many different lengths (header size field and
+            // payload): the range decoder runs dry in as many different states
+            let s = unhex(v["stream"].as_str().unwrap_or(""));
+            let dict = v["dict"].as_u64().unwrap_or(4096) as u32;
+            let off = v["chunk"]["off"].as_u64().unwrap_or(0) as usize;
+            let hdr = v["chunk"]["hdr"].as_u64().unwrap_or(0) as usize;
+            let packed = v["chunk"]["packed"].as_u64().unwrap_or(0) as usize;
+            let mut fold = 0xcbf29ce484222325u64;
+            let mut count = 0usize;
+            let mut detail = String::new();
+            for k in v["cuts"].as_array().unwrap() {
+                let k = k.as_u64().unwrap_or(1) as usize;
+                if off + hdr + packed > s.len() || k + 1 >= packed || off + 5 > s.len() {
+                    continue;
+                }
+                let mut m = s.clone();
+                let np = packed - k - 1;
+                m[off + 3] = (np >> 8) as u8;
+                m[off + 4] = np as u8;
+                let end = off + hdr + packed;
+                m.drain(end - k..end);
+                let (n, h, c) = drain(&mut LZMA2Reader::new(m.as_slice(), dict, None), chunk);
+                for b in (n as u64).to_le_bytes().iter().chain(h.to_le_bytes().iter()).chain(c.as_bytes().iter()) {
+                    fold = (fold ^ *b as u64).wrapping_mul(0x100000001b3);
+                }
+                if detail.len() < 200 {
+                    detail.push_str(&format!(" {k}:{n}:{c}"));
+                }
+                count += 1;
+            }
+            format!("dec-cuts {count} {fold:016x}{detail}")
+        }
         "dec" => {
             let s = unhex(v["stream"].as_str().unwrap_or(""));
             let decoder = v["decoder"].as_str().unwrap_or("");
